@@ -111,27 +111,27 @@ Proof.
 Qed.
 
 (* ---------- rehandle / unhandle ---------- *)
-Lemma rehandle_other ts : forall tk b i t, ~ In t ts -> tget (rehandle tk b i ts) t = tget tk t.
+Lemma rehandle_other ts : forall tk sid b i t, ~ In t ts -> tget (rehandle tk sid b i ts) t = tget tk t.
 Proof.
-  induction ts as [|x r IH]; intros tk b i t H; cbn [rehandle]; [reflexivity|].
+  induction ts as [|x r IH]; intros tk sid b i t H; cbn [rehandle]; [reflexivity|].
   rewrite IH by (intro; apply H; right; assumption).
   apply tset_handle_other. intro; subst; apply H; left; reflexivity.
 Qed.
-Lemma rehandle_size ts : forall tk b i t, t_size (tget (rehandle tk b i ts) t) = t_size (tget tk t).
+Lemma rehandle_size ts : forall tk sid b i t, t_size (tget (rehandle tk sid b i ts) t) = t_size (tget tk t).
 Proof.
   induction ts as [|x r IH]; intros; cbn [rehandle]; [reflexivity|]. rewrite IH. apply tset_handle_size.
 Qed.
-Lemma rehandle_text ts : forall tk b i t, t_text (tget (rehandle tk b i ts) t) = t_text (tget tk t).
+Lemma rehandle_text ts : forall tk sid b i t, t_text (tget (rehandle tk sid b i ts) t) = t_text (tget tk t).
 Proof.
   induction ts as [|x r IH]; intros; cbn [rehandle]; [reflexivity|]. rewrite IH. apply tset_handle_text.
 Qed.
-Lemma rehandle_in ts : forall tk b i j t, NoDup ts -> nth_error ts j = Some t ->
-  t_handle (tget (rehandle tk b i ts) t) = Some (b, i + Z.of_nat j).
+Lemma rehandle_in ts : forall tk sid b i j t, NoDup ts -> nth_error ts j = Some t ->
+  t_handle (tget (rehandle tk sid b i ts) t) = Some (sid, b, i + Z.of_nat j).
 Proof.
-  induction ts as [|x r IH]; intros tk b i j t ND H; [destruct j; discriminate|].
+  induction ts as [|x r IH]; intros tk sid b i j t ND H; [destruct j; discriminate|].
   inversion ND as [|? ? Hx ND']; subst. cbn [rehandle]. destruct j as [|j]; cbn [nth_error] in H.
   - injection H as ->. rewrite rehandle_other by assumption. rewrite tset_handle_same. f_equal. f_equal. lia.
-  - rewrite (IH _ _ _ j) by assumption. f_equal. f_equal. lia.
+  - rewrite (IH _ _ _ _ j) by assumption. f_equal. f_equal. lia.
 Qed.
 
 Lemma unhandle_other ts : forall tk t, ~ In t ts -> tget (unhandle tk ts) t = tget tk t.
